@@ -642,6 +642,11 @@ def generate(repo: Path) -> str:
         base_mod = ast.parse(base_src.read_text(), filename=str(base_src))
     except (OSError, SyntaxError) as e:
         raise Refuse(f"cannot read/parse the source: {e}")
+    try:
+        import guard
+        guard.check("_backends/_asyncio.py", mod, ["CancelScope", "AsyncIOBackend"])
+    except guard.GuardError as e:
+        raise Refuse(str(e))
     cs = find_class(mod, "CancelScope")
     be = find_class(mod, "AsyncIOBackend")
     check_getter(cs, "cancel_called", "_cancel_called")
